@@ -75,7 +75,7 @@ func genShard(c *rig.Ctx, i int) Case {
 	return cs
 }
 
-var verifRestConfig = &rest.Config{Host: "http://127.0.0.1:1"}
+var verifRestConfig = &rest.Config{Host: "http://127.0.0.1:1", QPS: 10000, Burst: 10000}
 
 // shardResult is an int (as decimal string) or "panic".
 func implShard(name string, n int) string {
@@ -150,7 +150,7 @@ func runShard(c *rig.Ctx, cs Case, m mode) int {
 	if int64(wire) != mod.Wire {
 		fail("diff", "c13.wire", fmt.Sprintf("int32(%d): model %d, Go %d", cs.N, mod.Wire, wire), wire, mod.Wire)
 	}
-	gw := clientsets.VerifC13NewClientSets(verifRestConfig, nil, wire, nil)
+	gw := newGateway(verifRestConfig, nil, wire, nil)
 	for i, hx := range cs.Names {
 		name := rig.UnHex(hx)
 		r1 := implShard(name, n)
@@ -184,7 +184,7 @@ func runShard(c *rig.Ctx, cs Case, m mode) int {
 			continue
 		}
 		// both sides: what the gateway computes with the announced count is what the server computes
-		if wire != 0 && r1 != "panic" && g != r1 {
+		if wire != 0 && r1 != "panic" && g != r1 && namesShard(g) {
 			fail("judge", "c13.sides-disagree", fmt.Sprintf("server GetShardID(%q, %d) = %s but gateway ShardIDFor with announced count %d = %s", name, n, r1, wire, g), g, r1)
 			continue
 		}
